@@ -18,8 +18,11 @@ TRUSTED = ["the model of Python/NumPy dynamic typing (Model/RtKinds.lean) is val
            "user types are represented by a numpy.ndarray subclass carrying the type identifier"]
 
 INIT = [["<t>", "real"], ["<dt>", "real"], ["<state>y", ["user", "a"]]]
-RT_FUNCS = [["<func>uv", [["user", "a"]]], ["<func>ar", [["arr", False]]], ["<func>cx", ["cplx"]], ["<func>sc", ["real"]]]
-KIND_FUNCS = [["<func>uv", [["U", "a"]]], ["<func>ar", [["A", True]]], ["<func>cx", [["S", False]]], ["<func>sc", [["S", True]]]]
+RT_FUNCS = [["<func>uv", [["user", "a"]]], ["<func>ar", [["arr", False]]], ["<func>cx", ["cplx"]], ["<func>sc", ["real"]],
+            ["<func>two", ["real", ["arr", True]]]]
+KIND_FUNCS = [["<func>uv", [["U", "a"]]], ["<func>ar", [["A", True]]], ["<func>cx", [["S", False]]], ["<func>sc", [["S", True]]],
+              ["<func>two", [["S", True], ["A", False]]]]
+CALL = "__call__"          # marks a CALL STATEMENT in a program: [CALL, [assignees...], function, args, kw]
 
 
 def user_vec_class():
@@ -49,7 +52,8 @@ def py_funcs():
     return {"<func>uv": lambda t=0, y=None: uv([1.0 + t, 2.0, 3.5]),
             "<func>ar": lambda x=0: np.array([1.0, 2.5, float(np.real(x))]),
             "<func>cx": lambda x=0: complex(0.5, 1.0) * x,
-            "<func>sc": lambda x=0: float(np.real(x)) * 0.5 + 1.25}
+            "<func>sc": lambda x=0: float(np.real(x)) * 0.5 + 1.25,
+            "<func>two": lambda x=0: (float(np.real(x)) + 0.5, np.array([1.0 + 1j, -2.0, 0.5j]))}
 
 
 def rt_of(v):
@@ -227,9 +231,31 @@ def gen_program(rng):
             prog.append([n, None, ["c", 0], []])
             prog.append([n, None, ["+", [["v", n], src]], []])
             env[n] = env[src[1]]
-        elif r < 0.95 and pick("arr"):
+        elif r < 0.93 and pick("arr"):
             prog.append([fresh("real"), None, ["call", "<builtin>dot_product", [pick("arr"), pick("arr")], []], []])
             env[prog[-1][0]] = "real"
+        elif r < 0.97:
+            # CALL STATEMENTS with one or several results; now and then with FEWER assignees than results (inference
+            # must reject that: a single assignee would receive the whole tuple)
+            q = rng.random()
+            short = rng.random() < 0.15
+            if q < 0.5:
+                a, w = fresh("real"), fresh("carr")
+                if env.get(a) in (None, "real") and env.get(w) in (None, "carr"):
+                    prog.append([CALL, [a] if short else [a, w], "<func>two", [pick("real")], []])
+                    env[a] = "real"
+                    if not short:
+                        env[w] = "carr"
+            elif q < 0.75:
+                a = fresh("real")
+                if env.get(a) in (None, "real"):
+                    prog.append([CALL, [a], "<func>sc", [], [["x", pick("real")]]])
+                    env[a] = "real"
+            else:
+                n = fresh("user")
+                if env.get(n) in (None, "user"):
+                    prog.append([CALL, [n], "<func>uv", [["v", "<t>"], ["v", "<state>y"]], []])
+                    env[n] = "user"
         else:
             prog.append(["<state>y", None, ["+", [["v", "<state>y"], ["*", [["v", "<dt>"], pick("user")]]]], []])
     if not prog:
@@ -312,7 +338,8 @@ def cases(rng, tier):
 
 
 def to_specs(prog):
-    return [["p1", ["assign", lhs, sub, e, loops]] for lhs, sub, e, loops in prog]
+    return [["p1", ["callassign", st[1], st[2], st[3], st[4]] if st[0] == CALL else ["assign", st[0], st[1], st[2], st[3]]]
+            for st in prog]
 
 
 def model_input(case):
@@ -321,7 +348,9 @@ def model_input(case):
     if case["op"] == "C09.infer":
         return {"op": "C09.infer", "prog": kc.model_prog(to_specs(case["src"]), case["order"]), "funcs": KIND_FUNCS}
     stmts = [kc.build_stmt(spec, i) for i, (ph, spec) in enumerate(to_specs(case["src"]))]
-    prog = [[st.assignee, bool(st.assignee_subscript), ser.to_js(st.expression), [l[0] for l in st.loops]] for st in stmts]
+    prog = [["call", list(st.assignees), st.function_id, [ser.to_js(a) for a in st.parameters],
+             [[k, ser.to_js(v)] for k, v in st.kw_parameters.items()]] if hasattr(st, "assignees") else
+            [st.assignee, bool(st.assignee_subscript), ser.to_js(st.expression), [l[0] for l in st.loops]] for st in stmts]
     return {"op": "C09.rt", "prog": prog, "rtfuncs": RT_FUNCS, "init": INIT + [i[:2] for i in case.get("inputs", [])]}
 
 
@@ -363,6 +392,15 @@ def real_run(case):
     for st in stmts:
         before = len(log)
         del evals[:]
+        if hasattr(st, "assignees"):
+            try:
+                interp.exec_AssignFunctionCall(st)
+            except AssertionError:
+                out.append(["raises"])          # result count does not fit the assignees
+                continue
+            stored = dict(log[before:])
+            out += [[a, rt_of(stored[a])] for a in st.assignees]
+            continue
         interp.exec_Assign(st)
         counters = {l[0] for l in st.loops}
         vals = [(k, v) for k, v in log[before:] if k not in counters]
@@ -407,6 +445,17 @@ def normalise_pair(case, impl_out, model_out):
     the theorems exclude exactly these evaluations"""
     if case["tag"] in ("impl1", "impl2", "impl4", "arith") and model_out.get("rt") == [["out", "err"]]:
         return model_out, model_out
+    if case.get("tag") == "typed" and isinstance(impl_out, dict) and isinstance(model_out, dict) \
+            and "rt" in impl_out and "rt" in model_out:
+        # once a value WITHOUT a kind has been stored (the tuple a single assignee receives from a multi-result call),
+        # what Python makes of it afterwards (tuple * 2 is a tuple) is outside the model: compare up to there
+        a, b = impl_out["rt"], model_out["rt"]
+        for k in range(min(len(a), len(b))):
+            if a[k][-1] == "none" or b[k][-1] == "none":
+                if a[:k + 1] == b[:k + 1]:
+                    ctx.count("tie:compared-up-to-first-value-without-kind")
+                    return {"rt": a[:k + 1]}, {"rt": b[:k + 1]}
+                break
     if case["op"] == "C09.results" and "err" in impl_out and "err" in model_out:
         # which exception class a rejected argument list raises is not part of the property
         return {"err": "rejected"}, {"err": "rejected"}
@@ -479,7 +528,16 @@ def oracle(case, out):
     ctx.count("oracle:checked-programs")
     if "ok" in t2 and t2["ok"] != t1["ok"] and not (t1.get("printed") or t2.get("printed")):
         return {"what": "kind table depends on statement order", "sig": "order"}
-    for (lhs, sub, e, loops), rec in zip(case["src"], out["rt"]):
+    flat = []          # one entry per record of out["rt"]
+    for st in case["src"]:
+        if st[0] == CALL:
+            flat += [(a, None, ["call-statement"], []) for a in st[1]] if len(st[1]) != 0 else []
+        else:
+            flat.append(tuple(st))
+    if any(r == ["raises"] for r in out["rt"]):
+        return {"what": "inference accepted a call statement whose result count does not fit its assignees "
+                        "(the interpreter's assertion fails)", "sig": "count-mismatch-accepted"}
+    for (lhs, sub, e, loops), rec in zip(flat, out["rt"]):
         key = ("|" if lhs.startswith("<") else "p1|") + lhs
         kind = table.get(key)
         if kind is None:
